@@ -431,60 +431,63 @@ func runC06(c *Ctx, body json.RawMessage) *Verdict {
 	return v
 }
 
-// runC06Kill is the supplementary process tier: the real `updog create` runs under strace,
-// which delivers SIGKILL at the N-th pwrite64 of a thread; whatever the process left on disk
-// is an image for the same recovery oracle. Counting is per thread inside strace, so this
-// tier is not claimed to replay exactly (the deciding tier is the in-process one); a case
-// that fails here carries the image's description and the kill position.
+// killedRun runs the instrumented twin of `updog create` as a child that sends itself SIGKILL
+// right before its n-th bbolt write (process-wide count, program order: replays exactly).
+// n <= 0 only counts the writes of an undisturbed run. Returns the number of writes seen.
+func killedRun(c *Ctx, n int, args ...string) (int, error) {
+	bin := os.Getenv("VERIF_UPDOG_SIM_BIN")
+	if bin == "" {
+		return 0, fmt.Errorf("VERIF_UPDOG_SIM_BIN not set")
+	}
+	log := c.Path("writes.log")
+	os.Remove(log)
+	cmd := exec.Command(bin, args...)
+	cmd.Env = append(os.Environ(), "TMPDIR="+c.Dir, "VERIF_WRITE_LOG="+log)
+	if n > 0 {
+		cmd.Env = append(cmd.Env, fmt.Sprintf("VERIF_KILL_AT_WRITE=%d", n))
+	}
+	_ = cmd.Run()
+	st, err := os.Stat(log)
+	if err != nil {
+		return 0, err
+	}
+	return int(st.Size()), nil
+}
+
+// runC06Kill is the process tier: the instrumented twin of the real `updog create` is killed
+// by SIGKILL right before its N-th bbolt write; whatever the process left on disk is an image
+// for the same recovery oracle.
 func runC06Kill(c *Ctx, cs *C06Case, v *Verdict, rows []Row) *Verdict {
 	for _, r := range rows {
 		if len(r) != len(rows[0]) {
 			return Invalid("ragged rows cannot be expressed as CSV")
 		}
 	}
-	if _, err := exec.LookPath("strace"); err != nil {
-		v.Count("skipped_no_strace", 1)
-		return v
-	}
-	bin := os.Getenv("VERIF_UPDOG_BIN")
 	ref := NewRefIndex(rows)
 	in := c.Path("in.csv")
 	if err := writeCSV(in, rows); err != nil {
 		return v.Harness("%v", err)
 	}
-	mode := []string{}
+	mode := []string{"create"}
 	if cs.Writer == "kill-big" {
-		mode = []string{"-b"}
+		mode = []string{"create", "-b"}
 	}
-	// count the writes of an undisturbed run
-	full := c.Path("full.updog")
-	log := c.Path("strace.log")
-	args := append([]string{"-f", "-e", "trace=pwrite64", "-o", log, bin, "create"}, mode...)
-	cmd := exec.Command("strace", append(args, "-o", full, in)...)
-	cmd.Env = append(os.Environ(), "TMPDIR="+c.Dir)
-	if out, err := cmd.CombinedOutput(); err != nil {
-		return v.Harness("strace baseline run failed: %v %s", err, clipStr(string(out), 500))
-	}
-	lb, _ := os.ReadFile(log)
-	nw := strings.Count(string(lb), "pwrite64(")
-	if nw == 0 {
-		return v.Harness("strace saw no pwrite64")
+	nw, err := killedRun(c, 0, append(mode, "-o", c.Path("full.updog"), in)...)
+	if err != nil || nw == 0 {
+		return v.Harness("baseline run of the instrumented binary: %v (%d writes)", err, nw)
 	}
 	var images []imageSpec
 	for ki, pm := range cs.Kills {
 		n := 1 + pm*nw/1000
 		out := c.Path(fmt.Sprintf("killed-%d.updog", ki))
-		kargs := append([]string{"-f", "-e", "trace=pwrite64", "-e", fmt.Sprintf("inject=pwrite64:signal=SIGKILL:when=%d", n), "-o", "/dev/null", bin, "create"}, mode...)
-		kc := exec.Command("strace", append(kargs, "-o", out, in)...)
-		kc.Env = append(os.Environ(), "TMPDIR="+c.Dir)
-		_ = kc.Run()
-		v.Count("fault_sigkill_at_pwrite", 1)
+		_, _ = killedRun(c, n, append(mode, "-o", out, in)...)
+		v.Count("fault_sigkill_before_write", 1)
 		b, err := os.ReadFile(out)
 		if err != nil {
 			v.Count("outcome_absent", 1)
 			continue
 		}
-		images = append(images, imageSpec{name: fmt.Sprintf("real `updog create %s` killed by SIGKILL at pwrite64 #%d of ~%d", strings.Join(mode, " "), n, nw), data: b, mid: true})
+		images = append(images, imageSpec{name: fmt.Sprintf("`updog %s` killed by SIGKILL before bbolt write #%d of %d", strings.Join(mode, " "), n, nw), data: b, mid: true})
 		os.Remove(out)
 	}
 	bad, progress, res := recoverImages(c, v, images, ref, cs.Queries)
